@@ -501,7 +501,7 @@ type adapterSpec struct {
 
 func ruleR19(c *Ctx) *RuleResult {
 	p := c.p
-	r := &RuleResult{Rule: "R19", Title: "ADAPT: stack/queue adapters use consistent ends; the ring wraps and indexes consistently", Floor: 4 + 5}
+	r := &RuleResult{Rule: "R19", Title: "ADAPT: stack/queue adapters use consistent ends; the ring wraps and indexes consistently", Floor: 4 + 4 + 6}
 	clA := "R19a each stack pushes and pops at the same end of its list, each queue enqueues at the tail and dequeues at the head; Peek and Pop/Dequeue read the same index; Pop/Dequeue removes the index it read"
 	for _, sp := range []adapterSpec{
 		{"stacks/arraystack.Stack", "Push", "Pop", false}, {"stacks/linkedliststack.Stack", "Push", "Pop", false},
@@ -599,10 +599,309 @@ func ruleR19(c *Ctx) *RuleResult {
 		} else {
 			r.add(Obligation{Key: "R19a:" + sp.tk, Rule: "R19a", Clause: clA, Pos: pos, Status: Discharged, Facts: strings.Join(facts, "; ")})
 		}
+		// Values() lists the elements in the order they would be removed: the list's own order when removal happens at the
+		// head, its exact reverse when removal happens at the tail
+		if vals := ms["Values"]; vals != nil && !strings.HasPrefix(popEnd, "?") {
+			clV := "R19a-values Values() lists the elements in removal order: the inner list's Values() when " + sp.pop + " removes at the head, its exact reverse when it removes at the tail"
+			st, why := valuesInRemovalOrder(c, ct, vals, popEnd)
+			r.add(Obligation{Key: "R19a-values:" + sp.tk, Rule: "R19a-values", Clause: clV, Pos: p.FuncPos(vals), Status: st, Facts: why})
+		}
 	}
 	ruleR19b(c, r)
 	ruleR19bSize(c, r)
 	return r
+}
+
+// valuesInRemovalOrder decides R19a-values for one adapter.
+func valuesInRemovalOrder(c *Ctx, ct *types.Named, fn *ssa.Function, popEnd string) (Status, string) {
+	p := c.p
+	fwd := forwardInfo(fn)
+	if popEnd == "head" {
+		if fwd != nil && fnName(fwd.Callee) == "Values" {
+			return Discharged, "removal at the head; Values() forwards to the inner list's Values()"
+		}
+		return Undecided, "removal at the head but Values() is not the inner list's Values()"
+	}
+	if fwd != nil {
+		return Violated, "removal at the tail, but Values() forwards to the inner list's " + fnName(fwd.Callee) + "() — the list's own order is the reverse of the removal order"
+	}
+	// the inner list and its size
+	var listField string
+	var listType *types.Named
+	if sz := methodsOf(p, ct)["Size"]; sz != nil {
+		if f := forwardInfo(sz); f != nil {
+			listField = fieldName(sz, f.Field)
+			listType = recvNamed(f.Callee)
+		}
+	}
+	if listType == nil {
+		return Undecided, "inner list not identified"
+	}
+	S := sizeTermOf(c, fn, listField, listType)
+	LIST := "(load (fa:" + listField + " p:0))"
+	gc := c.GC(fn)
+	if gc.Undecided != "" || S == "" {
+		return Undecided, "normal form not built"
+	}
+	// the inner list's Values(), as a call or expanded in place
+	valuesExpanded := ""
+	if vm := methodsOf(p, listType)["Values"]; vm != nil {
+		stt := &pstate{b: &gcBuilder{p: p, e: c.E(), fn: fn, cutIdx: map[string]int{}, out: &GCNF{Fn: fn}}, env: map[ssa.Value]*Term{}, onPath: map[string]bool{}, inl: true}
+		if t, ok := stt.inline(vm, []*Term{nodeL("load", "x", nodeL("fa", listField, leaf("p", "0")))}); ok {
+			valuesExpanded = noEpoch(t)
+		}
+	}
+	isListValues := func(t *Term) bool {
+		if t.Op == "call" && strings.HasSuffix(t.Leaf, ").Values") && len(t.Args) == 2 && noEpoch(t.Args[1]) == LIST {
+			return true
+		}
+		return valuesExpanded != "" && noEpoch(t) == valuesExpanded
+	}
+	var ev func(t *Term) lin
+	ev = func(t *Term) lin {
+		if k, ok := t.constInt(); ok {
+			return linConst(int(k))
+		}
+		if noEpoch(t) == S {
+			return linAtom("S")
+		}
+		if t.Op == "len" && isListValues(t.Args[0]) {
+			return linAtom("S") // the inner list's Values() has length Size() (R12f)
+		}
+		switch {
+		case t.Op == "φ":
+			return linAtom("φ" + t.Leaf)
+		case t.Op == "+" && len(t.Args) == 2:
+			return ev(t.Args[0]).add(ev(t.Args[1]), 1)
+		case t.Op == "-" && len(t.Args) == 2:
+			return ev(t.Args[0]).add(ev(t.Args[1]), -1)
+		}
+		return linAtom(noEpoch(t))
+	}
+	// form B: v := list.Values(); slices.Reverse(v); return v
+	if len(gc.GCs) == 1 {
+		g := gc.GCs[0]
+		if len(g.Effects) == 1 && g.Effects[0].Op == "stddo" && g.Effects[0].Leaf == "slices.Reverse" && g.Exit.Op == "return" && len(g.Exit.Args) == 1 {
+			x := g.Effects[0].Args[0]
+			if isListValues(x) && noEpoch(g.Exit.Args[0]) == noEpoch(x) {
+				return Discharged, "slices.Reverse of a fresh copy of the inner list's Values()"
+			}
+		}
+	}
+	if st, why, ok := inPlaceReversal(gc, isListValues, ev); ok {
+		return st, why
+	}
+	// form A: dst[a(i)] = list.Get(b(i)) with a(i)+b(i) = S-1, b running over 0..S-1
+	var entry, done, step *GC
+	for _, g := range gc.GCs {
+		switch {
+		case g.From == 0 && entry == nil:
+			entry = g
+		case g.From != 0 && g.Exit.Op == "return" && done == nil:
+			done = g
+		case g.From != 0 && g.Exit.Op == "goto" && step == nil:
+			step = g
+		default:
+			return Undecided, "Values() of a tail-removing stack is neither a reversed fill loop nor slices.Reverse of the list's Values()"
+		}
+	}
+	if entry == nil || done == nil || step == nil || entry.Exit.Op != "goto" || len(entry.Exit.Args) < 1 || len(entry.Effects) != 0 || len(step.Effects) != 1 || len(done.Effects) != 0 ||
+		step.Exit.Leaf != entry.Exit.Leaf || len(step.Exit.Args) != len(entry.Exit.Args) {
+		return Undecided, "Values() of a tail-removing stack is neither a reversed fill loop nor slices.Reverse of the list's Values()"
+	}
+	// every loop variable is start + step·T in round T
+	subst := map[string]lin{}
+	for j := range entry.Exit.Args {
+		phi := "φ" + entry.Exit.Leaf + "." + itoa(j)
+		start := ev(entry.Exit.Args[j])
+		d := ev(step.Exit.Args[j]).add(linAtom(phi), -1)
+		if len(d.c) != 0 {
+			return Undecided, "a loop variable does not advance by a constant"
+		}
+		v := start
+		for i := 0; i < d.k; i++ {
+			v = v.add(linAtom("T"), 1)
+		}
+		for i := 0; i > d.k; i-- {
+			v = v.add(linAtom("T"), -1)
+		}
+		subst[phi] = v
+	}
+	inT := func(l lin) lin {
+		out := linConst(l.k)
+		for x, n := range l.c {
+			term := linAtom(x)
+			if sv, ok := subst[x]; ok {
+				term = sv
+			}
+			for i := 0; i < n; i++ {
+				out = out.add(term, 1)
+			}
+			for i := 0; i > n; i-- {
+				out = out.add(term, -1)
+			}
+		}
+		return out
+	}
+	res := done.Exit.Args
+	if len(res) != 1 || res[0].Op != "makeslice" || ev(res[0].Args[0]).String() != "S" {
+		return Violated, "the result is not a slice of length Size(): " + trunc(noEpoch(done.Exit), 160)
+	}
+	ef := step.Effects[0]
+	if !(isStore(ef) && ef.Args[0].Op == "ia" && noEpoch(ef.Args[0].Args[0]) == noEpoch(res[0])) {
+		return Undecided, "the loop round does not fill a slot of the result"
+	}
+	src := ef.Args[1]
+	if src.Op == "ext" && src.Leaf == "0" {
+		src = src.Args[0]
+	}
+	if !(src.Op == "call" && strings.HasSuffix(src.Leaf, ").Get") && len(src.Args) == 3 && noEpoch(src.Args[1]) == LIST) {
+		return Undecided, "the loop round does not read the inner list with Get"
+	}
+	a, b := inT(ev(ef.Args[0].Args[1])), inT(ev(src.Args[2]))
+	Sm1 := linAtom("S").add(linConst(1), -1)
+	if sum := a.add(b, 1); sum.String() != Sm1.String() {
+		return Violated, fmt.Sprintf("in round T slot %s is filled from list position %s: the two do not add up to Size()-1, so Values() is not the reverse of the list (= the removal order)", a.String(), b.String())
+	}
+	dir := b.c["T"]
+	if dir != 1 && dir != -1 {
+		return Undecided, "the source index does not move by one per round"
+	}
+	first := b.add(linAtom("T"), -dir)
+	wantFirst := linConst(0)
+	if dir < 0 {
+		wantFirst = Sm1
+	}
+	if first.String() != wantFirst.String() {
+		return Violated, fmt.Sprintf("the fill starts at list position %s instead of %s: not every element is copied", first.String(), wantFirst.String())
+	}
+	// continuation guard ⇔ the source position is still within 0..S-1 on the far side
+	var want lin // "<= 0" form
+	if dir > 0 {
+		want = b.add(linAtom("S"), -1).add(linConst(1), 1)
+	} else {
+		want = linConst(0).add(b, -1)
+	}
+	okGuard := false
+	for _, at := range step.Guards {
+		var form lin
+		switch {
+		case at.Op == "<=" && len(at.Args) == 2:
+			form = inT(ev(at.Args[0]).add(ev(at.Args[1]), -1))
+		case at.Op == "<" && len(at.Args) == 2:
+			form = inT(ev(at.Args[0]).add(ev(at.Args[1]), -1).add(linConst(1), 1))
+		default:
+			continue
+		}
+		if form.String() == want.String() {
+			okGuard = true
+		}
+	}
+	if !okGuard {
+		return Violated, "the fill loop does not run exactly while the source position is within 0..Size()-1: " + trunc(guardsString(step), 200)
+	}
+	return Discharged, fmt.Sprintf("result[%s] = list.Get(%s) for every list position 0..Size()-1: the exact reverse of the list, i.e. the removal order", a.String(), b.String())
+}
+
+// inPlaceReversal recognises `v := list.Values()` reversed in place by a swap loop — two cursors closing in (i up from 0,
+// j down from n-1, while i < j) or one cursor with its mirror n-1-i while i < n/2 — and returned.
+func inPlaceReversal(gc *GCNF, isListValues func(*Term) bool, ev func(*Term) lin) (Status, string, bool) {
+	var entry, done, step *GC
+	for _, g := range gc.GCs {
+		switch {
+		case g.From == 0 && entry == nil:
+			entry = g
+		case g.From != 0 && g.Exit.Op == "return" && done == nil:
+			done = g
+		case g.From != 0 && g.Exit.Op == "goto" && step == nil:
+			step = g
+		default:
+			return 0, "", false
+		}
+	}
+	if entry == nil || done == nil || step == nil || entry.Exit.Op != "goto" || len(done.Exit.Args) != 1 {
+		return 0, "", false
+	}
+	X := done.Exit.Args[0]
+	if !isListValues(X) {
+		return 0, "", false
+	}
+	xs := noEpoch(X)
+	// the two slot stores of a swap
+	var slots []*Term
+	var vals []*Term
+	for _, ef := range step.Effects {
+		if isStore(ef) && ef.Args[0].Op == "ia" && noEpoch(ef.Args[0].Args[0]) == xs {
+			slots = append(slots, ef.Args[0].Args[1])
+			vals = append(vals, ef.Args[1])
+		} else {
+			return Undecided, "unexpected effect in the reversal loop: " + trunc(noEpoch(ef), 120), true
+		}
+	}
+	if len(slots) != 2 {
+		return 0, "", false
+	}
+	a, b := ev(slots[0]), ev(slots[1])
+	for i, v := range vals {
+		o := slots[1-i]
+		if !(v.Op == "load" && v.Args[0].Op == "ia" && noEpoch(v.Args[0].Args[0]) == xs && ev(v.Args[0].Args[1]).String() == ev(o).String()) {
+			return Violated, "the loop round does not exchange the two slots", true
+		}
+	}
+	Sm1 := linAtom("S").add(linConst(1), -1)
+	k := entry.Exit.Leaf
+	switch len(entry.Exit.Args) {
+	case 2:
+		// two cursors
+		pi, pj := "φ"+k+".0", "φ"+k+".1"
+		if a.String() != linAtom(pi).String() {
+			a, b = b, a
+			pi, pj = pj, pi
+		}
+		_ = pj
+		i0, j0 := ev(entry.Exit.Args[0]), ev(entry.Exit.Args[1])
+		ni, nj := ev(step.Exit.Args[0]), ev(step.Exit.Args[1])
+		if pi == "φ"+k+".1" {
+			i0, j0, ni, nj = j0, i0, nj, ni
+		}
+		if !(a.String() == linAtom(pi).String() && b.String() == linAtom(pj).String()) {
+			return Undecided, "the swapped slots are not the two cursors", true
+		}
+		if i0.String() != "0" || j0.String() != Sm1.String() {
+			return Violated, fmt.Sprintf("the cursors start at %s and %s instead of 0 and Size()-1", i0.String(), j0.String()), true
+		}
+		if ni.add(linAtom(pi), -1).String() != "1" || nj.add(linAtom(pj), -1).String() != "-1" {
+			return Violated, "the cursors do not close in by one each round", true
+		}
+		for _, at := range step.Guards {
+			if (at.Op == "<" || at.Op == "<=") && len(at.Args) == 2 && ev(at.Args[0]).String() == linAtom(pi).String() && ev(at.Args[1]).String() == linAtom(pj).String() {
+				return Discharged, "the inner list's Values() reversed in place by two cursors closing in from 0 and Size()-1", true
+			}
+		}
+		return Violated, "the reversal loop does not run while the lower cursor is below the upper one: " + trunc(guardsString(step), 160), true
+	case 1:
+		pi := "φ" + k + ".0"
+		if a.String() != linAtom(pi).String() {
+			a, b = b, a
+		}
+		if a.String() != linAtom(pi).String() || a.add(b, 1).String() != Sm1.String() {
+			return Violated, fmt.Sprintf("slots %s and %s are exchanged: they are not mirror positions (sum Size()-1)", a.String(), b.String()), true
+		}
+		if ev(entry.Exit.Args[0]).String() != "0" || ev(step.Exit.Args[0]).add(linAtom(pi), -1).String() != "1" {
+			return Violated, "the cursor does not run upwards from 0", true
+		}
+		for _, at := range step.Guards {
+			if at.Op == "<" && len(at.Args) == 2 && ev(at.Args[0]).String() == linAtom(pi).String() {
+				h := at.Args[1]
+				if h.Op == "/" && len(h.Args) == 2 && h.Args[1].String() == "#:2" && ev(h.Args[0]).String() == "S" {
+					return Discharged, "the inner list's Values() reversed in place: slot i exchanged with Size()-1-i for i < Size()/2", true
+				}
+				return Violated, "the reversal must exchange slot i with its mirror for every i < Size()/2, but the loop runs while i < " + trunc(noEpoch(h), 120) + " (for some sizes the innermost pair is never exchanged)", true
+			}
+		}
+		return Undecided, "loop bound of the reversal not recognised", true
+	}
+	return 0, "", false
 }
 
 func ruleR19b(c *Ctx, r *RuleResult) {
@@ -622,7 +921,7 @@ func ruleR19b(c *Ctx, r *RuleResult) {
 	// wrap
 	var badW []string
 	nadv := 0
-	for _, name := range []string{"Enqueue", "Dequeue"} {
+	for _, name := range sortedNames(ms) { // every method of the ring, loaders included: the index invariant 0 <= start,end < capacity is global
 		fn := ms[name]
 		if fn == nil {
 			continue
@@ -919,6 +1218,44 @@ func ruleR19bSize(c *Ctx, r *RuleResult) {
 		// no recomputation helper: judged by R12b/c
 		r.add(Obligation{Key: "R19b-size:" + tk, Rule: "R19b-size", Clause: clause, Pos: "-", Status: Discharged, Facts: "no calculateSize helper (the size is maintained incrementally: R12b/c)"})
 		return
+	}
+	// a recomputation is only as good as the fields it reads: on no path may a field that calculateSize reads be written
+	// after the size was recomputed from it (the cached size would describe the state before that write)
+	{
+		clR := "R19b-recompute wherever the cached size is recomputed from (start, end, full), that is the last write to the ring's state on the path: no field the recomputation reads is stored afterwards"
+		st := ct.Underlying().(*types.Struct)
+		reads := map[string]bool{}
+		for i := 0; i < st.NumFields(); i++ {
+			if readsField(fn, i) && fieldN(ct, i) != "size" {
+				reads[fieldN(ct, i)] = true
+			}
+		}
+		var badR []string
+		nre := 0
+		ms := methodsOf(p, ct)
+		for _, name := range sortedNames(ms) {
+			for _, g := range c.GC(ms[name]).GCs {
+				for i, ef := range g.Effects {
+					if !storeToField(ef, "size") || !ef.Args[1].any(func(t *Term) bool { return t.Op == "call" && strings.HasSuffix(t.Leaf, ").calculateSize") }) {
+						continue
+					}
+					nre++
+					for _, e2 := range g.Effects[i+1:] {
+						if isStore(e2) && e2.Args[0].Op == "fa" && reads[e2.Args[0].Leaf] && e2.Args[0].Args[0].String() == "p:0" {
+							badR = append(badR, fmt.Sprintf("%s stores %s after the size was recomputed from it: %s", name, e2.Args[0].Leaf, trunc(noEpoch(e2), 120)))
+						}
+						if nm, _, ok := effDo(e2); ok && nm != "calculateSize" {
+							badR = append(badR, fmt.Sprintf("%s calls %s after the size was recomputed", name, nm))
+						}
+					}
+				}
+			}
+		}
+		if len(badR) > 0 {
+			r.add(Obligation{Key: "R19b-recompute:" + tk, Rule: "R19b-recompute", Clause: clR, Pos: p.FuncPos(fn), Status: Violated, Facts: strings.Join(dedup(badR), "\n")})
+		} else {
+			r.add(Obligation{Key: "R19b-recompute:" + tk, Rule: "R19b-recompute", Clause: clR, Pos: p.FuncPos(fn), Status: Discharged, Facts: fmt.Sprintf("%d recomputation site-paths, each the last write to the ring's state", nre)})
+		}
 	}
 	var bad []string
 	n := 0
